@@ -59,6 +59,18 @@ Theorem C04_generated_take_assembly_slots :
   Z.of_nat (length (@gen_build_solver_matrix_take Rsc nr nth h k rad arr att art det beta dirbc i j)) = @gen_take_get_stencil_size nr dirbc i.
 Proof. exact gen_asm_take_slots. Qed.
 
+(* ---- the give assembly as T3 regenerates it (NODE_BUILD_SOLVER_MATRIX_GIVE; UPDATE_MATRIX_ELEMENT accumulates with +=): for all
+   x, y the sum of value * x(column) * y(row) over everything a node contributes to the CSR matrix is the bilinear form of
+   that node's scatter block -- the block the give residual applies (C03_generated_give_is_model) and whose row sums are the
+   take rows (C04_both_strategies_assemble_one_operator_partial).  The slot bookkeeping of the give assembly (which offset of
+   the target row an entry lands in) is NOT covered by this theorem; it is compared entry by entry on the real CSR matrix. *)
+Theorem C04_generated_give_assembly_is_the_residual_operator :
+  forall (nr nth : Z) (h k rad : Z -> R) (arr att art det : Z -> Z -> R) (beta : Z -> R) (dirbc : bool),
+  (4 <= nr)%Z -> (2 <= nth)%Z -> forall (x y : Z -> Z -> R) i j, (0 <= i < nr)%Z -> (0 <= j < nth)%Z ->
+  mw_bil (@gen_build_solver_matrix_give Rsc nr nth h k rad arr att art det beta dirbc i j) x y =
+  @bil Rsc nr nth h k (rad 0%Z) arr att art det beta dirbc i j x y.
+Proof. exact gen_asm_give_is_model. Qed.
+
 Print Assumptions C04_both_strategies_assemble_one_operator_partial.
 Print Assumptions C04_generated_take_assembly_is_the_residual_operator.
 Print Assumptions C04_coarse_solve_inverts_the_assembled_matrix.
